@@ -27,6 +27,16 @@ class End(Protocol):
     def connectionMade(self):
         self.ev.append(("made", None, self.case.step))
         self.case.ends.append(self)
+        eager = self.case.P.get("eager")
+        if eager and self.role == "opn":
+            # an application that talks the moment it is connected: writes (and perhaps closes) synchronously
+            # inside connectionMade()
+            data = b"eager:%d" % len(self.case.ends)
+            self.transport.write(data)
+            self.writes.append(data)
+            if eager == "close":
+                self.closed_locally = self.case.step
+                self.transport.loseConnection()
 
     def dataReceived(self, d):
         self.ev.append(("data", d, self.case.step))
